@@ -139,7 +139,9 @@ func parseTimestamp(lt lokiapi.LokiTime, def time.Time) (time.Time, error) {
 	if err != nil {
 		return time.Parse(time.RFC3339Nano, value)
 	}
-	if len(value) <= 10 {
+	// Numbers of up to ten digits are seconds, longer ones are nanoseconds:
+	// decide on the number, not on its spelling ("+1700000000", "01700000000").
+	if nanos >= -999999999 && nanos <= 9999999999 {
 		return time.Unix(nanos, 0), nil
 	}
 	return time.Unix(0, nanos), nil
